@@ -1304,6 +1304,18 @@ class PyExec:
                     r = x * y if r is None else r + x * y
                 out.append(r)
             return st.new(NDArr((n,), out))
+        if len(A.shape) == 1 and len(B.shape) == 3 and A.shape[0] == B.shape[1]:
+            # numpy: dot(a, b)[i, k] = sum_j a[j] * b[i, j, k]   (last axis of a with the second-to-last of b)
+            n3, m3, p3 = B.shape
+            out = []
+            for i in range(n3):
+                for k in range(p3):
+                    r = None
+                    for j in range(m3):
+                        x, y = both_real(A.flat[j], B.flat[(i * m3 + j) * p3 + k])
+                        r = x * y if r is None else r + x * y
+                    out.append(r)
+            return st.new(NDArr((n3, p3), out))
         if len(A.shape) == 1 and len(B.shape) == 2:
             m, p = B.shape
             out = []
